@@ -559,6 +559,22 @@ fn run(op: &Value) -> Value {
                 Err(e) => json!({"ok": false, "calls": c, "cause": e.cause().to_string()}),
             }
         }
+        "gen_error" => {
+            // C17: error types emitted by the real generator: ErrorType metadata, encode(), and the safe/unsafe partition of Error::service_safe
+            use conjure_error::ErrorType;
+            fn show<E: ErrorType + serde::Serialize + Clone>(e: E) -> Value {
+                let se = conjure_error::encode(&e);
+                let mut params: Vec<(String, String)> = se.parameters().iter().map(|(k, v)| (k.clone(), v.clone())).collect();
+                params.sort();
+                let err = conjure_error::Error::service_safe("cause", e.clone());
+                let mut sp: Vec<String> = err.safe_params().iter().map(|(k, _)| k.to_string()).collect();
+                let mut up: Vec<String> = err.unsafe_params().iter().map(|(k, _)| k.to_string()).collect();
+                sp.sort(); up.sort();
+                json!({"name": e.name(), "code": format!("{:?}", e.code()), "safe_args": e.safe_args(), "encoded_name": se.error_name(), "encoded_code": format!("{:?}", se.error_code()),
+                       "params": params, "safe_params": sp, "unsafe_params": up})
+            }
+            json!({"http": show(verif_types::types::p::HttpUpstreamFailed::new("z", 7, "s")), "plain": show(verif_types::types::p::PlainErr::new())})
+        }
         "client_gen_status" => {
             // C18: the client emitted by the real generator against a scripted response (status, Content-Type, one body chunk)
             use conjure_http::client::{Client, RequestBody, Service as ClientService};
